@@ -4,7 +4,7 @@
 // than 50 elements, sorting switches strategy with the length, buffers are sized by capacity classes of
 // 64 / 256 / 1024). The contexts of the other families hold two or three elements, so a shortcut that only
 // large containers take is never entered there. Here every container has 51, 64 or 200 elements (thorough:
-// also 50, 52, 65, 100, 1000, and ascending / descending order besides the permuted one), unsorted, with
+// also 50, 52, 65, 100, 300, and ascending / descending order besides the permuted one), unsorted, with
 // duplicates and with sentinel-filled spare capacity; the programs test membership, read, iterate, compare
 // and run every filter on them. The oracle is the one of the other families.
 package main
@@ -226,7 +226,7 @@ func pristineBig(s bigSpec) string {
 func bigSpecs(thorough bool) [][2]int {
 	a := [][2]int{{51, 0}, {64, 0}, {200, 0}}
 	if thorough {
-		a = append(a, [2]int{50, 0}, [2]int{52, 0}, [2]int{65, 0}, [2]int{100, 0}, [2]int{1000, 0}, [2]int{51, 1}, [2]int{51, 2}, [2]int{200, 1}, [2]int{200, 2})
+		a = append(a, [2]int{50, 0}, [2]int{52, 0}, [2]int{65, 0}, [2]int{100, 0}, [2]int{300, 0}, [2]int{51, 1}, [2]int{51, 2}, [2]int{200, 1}, [2]int{200, 2})
 	}
 	return a
 }
